@@ -30,3 +30,10 @@ CFG = dict(
 
 # the pinned theorems depend on regenerated tables (coq/Gen): a failing translator is a broken tie
 CFG["uses_gen"] = True
+
+CFG["level_extra"] = ('Avalanche stage: Event/EventSlots.v maps the assembled event to the MainEvent value (256 wire slots, 32 x 576 '
+                      'pad slots, timestamp); it respects ev_eq (C11_main_event_respects_ev_eq), the avalanche models (panic-aware '
+                      'avalanches_res of C09 and the C13 skeleton) read only those arrays (C11_avalanches_respect_ev_eq), hence for '
+                      'every permutation of the raw bank list and any two HashMap orders success is alike and the MainEvent values, '
+                      'avalanche model outputs and timestamps are EQUAL (C11_e2e_avalanches_perm_invariant), for every instance of '
+                      'the kernels. That the real avalanches()/vertex() are such functions in one process stays with C13/C14/C17 + rel11.')
